@@ -1,4 +1,4 @@
-import SaphyrModel.Sc.Assemble
+import SaphyrModel.Sc.KS.Final
 import SaphyrModel.Props.C02
 import SaphyrModel.Props.C07
 import SaphyrModel.Props.C11
@@ -10,7 +10,9 @@ full. What is proved is `scanner_no_structural_panic`: for every input, back-end
 scanner never reaches one of its six structural panic sites (the per-function lemmas below are the
 ingredients: each structural function preserves the invariant `InvS`; `Sc/Assemble.lean` carries
 the invariant through every `fetch_*` function, `fetch_more_tokens`, `next_token` and the run).
-Still open: the look-ahead discipline of the buffered input, and fuel sufficiency. The parser part is proved
+`scanner_str_no_panic` adds, for the string back-end, that no input-level site is reachable either:
+on a `StrInput` the model can only stop at `fuel`. Still open: the look-ahead discipline of the
+buffered input (its ring-buffer sites), and fuel sufficiency. The parser part is proved
 for every token list (C02), the loader part for every well-nested event run (C07), the push loop
 and the decode loop terminate (C11, C18). -/
 namespace SaphyrModel.C01
@@ -49,6 +51,15 @@ theorem value_after_complex_key_safe (m : Marker) (imp : Bool) : PresS (valueAft
 theorem scanner_no_structural_panic (k : InKind) (cap : Nat) (text : Str) (fuel : Nat) (p : Site)
     (h : (scanAll fuel (mkSc k cap text) []).2.1 = .panic p) : ¬ StructSite p :=
   scanAll_no_struct_panic fuel _ [] (mkSc_between k cap text) p h
+
+/-- **String input: no panic site at all, for every text.** When the scanner reads from a string slice
+    (`StrInput`, the back-end behind `Parser::new_from_str` and every `load_from_str`) the only way the
+    model run can stop abnormally is by exhausting the fuel it was given: none of the `unwrap`,
+    `assert!`, index and subtraction sites of the scanner or of `StrInput` (its
+    `next_can_be_plain_scalar` on an empty string, its `skip_ws_to_eol` assertion) is reachable. -/
+theorem scanner_str_no_panic (cap : Nat) (text : Str) (fuel : Nat) (p : Site)
+    (h : (scanAll fuel (mkSc .str cap text) []).2.1 = .panic p) : p = .fuel :=
+  scanAll_str_only_fuel cap text fuel p h
 
 /-- the statement is not vacuous: the six sites are exactly the ones it excludes -/
 example : StructSite .indentsPopUnwrap ∧ StructSite .insertTokenAssert ∧ StructSite .tokenNumberUnderflow ∧
